@@ -1,78 +1,35 @@
-import FpgoVerif.Model.C15Pool
-import FpgoVerif.Proofs.C15Tac
-/-! Invariants of the worker-pool close path. -/
+import FpgoVerif.Proofs.C15PoolStep0
+import FpgoVerif.Proofs.C15PoolStep1
+import FpgoVerif.Proofs.C15PoolStep2
+import FpgoVerif.Proofs.C15PoolStep3
+import FpgoVerif.Proofs.C15PoolStep4
+import FpgoVerif.Proofs.C15PoolStep5
+import FpgoVerif.Proofs.C15PoolStep6
+/-! Pool system: assembly of the per-program-counter preservation lemmas (C15PoolStep*.lean, built in
+    parallel), reachability, progress. -/
 namespace FpgoVerif.C15.Pl
 
-theorem gstep_some {s pc ch s' nx} (h : gstep s pc ch = some (s', nx)) :
-    0 < s.cnt (kind pc) ∧ ∃ s1, step s pc ch = some (s1, nx) ∧ s' = { s1 with cnt := move s1.cnt (kind pc) nx } := by
-  unfold gstep at h
-  split at h
-  · simp at h
-  · rename_i hc
-    split at h
-    · simp at h
-    · rename_i s1 nx1 hs
-      simp at h
-      obtain ⟨rfl, rfl⟩ := h
-      exact ⟨Nat.pos_of_ne_zero hc, s1, hs, rfl⟩
-
-structure Inv (s : St) : Prop where
-  fn : s.fixNotify = true
-  nopanic : s.panic = false
-  np0 : s.np = 0
-  w1 : s.cnt .s2 + s.cnt .qc1 + s.cnt .qc2 ≤ 1
-  wr : 0 < s.cnt .s2 + s.cnt .qc1 + s.cnt .qc2 → s.cnt .w2 = 0
-  oneC : s.cnt .pc0 + s.cnt .pc1 + s.cnt .qc1 + s.cnt .qc2 ≤ 1
-  startedC : s.closeStarted = false → s.cnt .pc0 + s.cnt .pc1 + s.cnt .qc1 + s.cnt .qc2 = 0
-  startedFlag : s.pflag = true → s.closeStarted = true
-  w2flag : 0 < s.cnt .w2 → s.qflag = false
-  qcflag : 0 < s.cnt .qc1 + s.cnt .qc2 → s.qflag = true
-  pcflag : 0 < s.cnt .pc1 + s.cnt .qc1 + s.cnt .qc2 → s.pflag = true
-  qp : s.qflag = true → s.pflag = true
-  loadFlag : s.loadClosed = true → s.qflag = true ∧ s.cnt .pc0 + s.cnt .pc1 + s.cnt .qc1 = 0
-  chanFlag : s.chanClosed = true → s.loadClosed = true ∧ s.cnt .pc0 + s.cnt .pc1 + s.cnt .qc1 + s.cnt .qc2 = 0
-  c2load : 0 < s.cnt .qc2 → s.loadClosed = true
-  doneFlag : s.closeDone = true → s.pflag = true
-  doneQ : s.closeDone = true → s.qclose = true → s.chanClosed = true
-  late0 : s.late = 0
-  pc0flag : 0 < s.cnt .pc0 → s.pflag = false
-  closerIn : s.closeStarted = true → s.closeDone = false → 0 < s.cnt .pc0 + s.cnt .pc1 + s.cnt .qc1 + s.cnt .qc2
-
-theorem inv_init (cap : Nat) (qc : Bool) : Inv (init cap qc true) := by
-  constructor <;> simp [init]
-
-set_option maxHeartbeats 1600000 in
 theorem inv_spawn {s s' pc} (h : spawn s pc = some s') (hi : Inv s) : Inv s' := by
-  obtain ⟨fn, nopanic, np0, w1, wr, oneC, startedC, startedFlag, w2flag, qcflag, pcflag, qp, loadFlag, chanFlag, c2load, doneFlag, doneQ, late0, pc0flag, closerIn⟩ := hi
-  have b1 := Bool.toNat_le s.pflag; have b2 := Bool.toNat_le s.loadClosed; have b3 := Bool.toNat_le s.chanClosed
-  have b4 := Bool.toNat_le s.closeStarted; have b5 := Bool.toNat_le s.closeDone; have b6 := Bool.toNat_le s.panic
-  have b7 := Bool.toNat_le s.fixNotify; have b8 := Bool.toNat_le s.qflag; have b9 := Bool.toNat_le s.qclose
-  cases pc <;> simp [spawn, inc] at h
-  all_goals (try (obtain ⟨hs, rfl⟩ := h))
-  all_goals (try subst h)
-  all_goals (constructor <;> (try simp [updK]) <;> c15arith)
+  have hcover : pcGroup pc = 0 ∨ pcGroup pc = 1 ∨ pcGroup pc = 2 ∨ pcGroup pc = 3 ∨ pcGroup pc = 4 ∨ pcGroup pc = 5 ∨ pcGroup pc = 6 := by cases pc <;> simp [pcGroup]
+  rcases hcover with hg | hg | hg | hg | hg | hg | hg
+  · exact inv_spawn_0 hg h hi
+  · exact inv_spawn_1 hg h hi
+  · exact inv_spawn_2 hg h hi
+  · exact inv_spawn_3 hg h hi
+  · exact inv_spawn_4 hg h hi
+  · exact inv_spawn_5 hg h hi
+  · exact inv_spawn_6 hg h hi
 
-set_option maxHeartbeats 6400000 in
 theorem inv_step {s s' nx pc ch} (h : gstep s pc ch = some (s', nx)) (hi : Inv s) : Inv s' := by
-  obtain ⟨fn, nopanic, np0, w1, wr, oneC, startedC, startedFlag, w2flag, qcflag, pcflag, qp, loadFlag, chanFlag, c2load, doneFlag, doneQ, late0, pc0flag, closerIn⟩ := hi
-  obtain ⟨hc, s1, hs, rfl⟩ := gstep_some h
-  clear h
-  have b1 := Bool.toNat_le s.pflag; have b2 := Bool.toNat_le s.loadClosed; have b3 := Bool.toNat_le s.chanClosed
-  have b4 := Bool.toNat_le s.closeStarted; have b5 := Bool.toNat_le s.closeDone; have b6 := Bool.toNat_le s.panic
-  have b7 := Bool.toNat_le s.fixNotify; have b8 := Bool.toNat_le s.qflag; have b9 := Bool.toNat_le s.qclose
-  cases pc <;> simp only [step, kind, writers, readers, fn, eq_self, reduceIte, ite_true, ite_false] at hs hc
-  all_goals (repeat' split at hs)
-  all_goals (try (simp only [Option.some.injEq, Prod.mk.injEq] at hs))
-  all_goals (try (obtain ⟨rfl, rfl⟩ := hs))
-  all_goals (try (simp at hs))
-  all_goals (try (obtain ⟨hg, hs⟩ := hs))
-  all_goals (repeat' split at hs)
-  all_goals (try (simp only [Option.some.injEq, Prod.mk.injEq] at hs))
-  all_goals (try (obtain ⟨rfl, rfl⟩ := hs))
-  all_goals (try (simp at hs))
-  all_goals (try (obtain ⟨rfl, rfl⟩ := hs))
-  all_goals (try subst_vars)
-  all_goals (constructor <;> (try simp [move, kind, updK]) <;> c15arith)
+  have hcover : pcGroup pc = 0 ∨ pcGroup pc = 1 ∨ pcGroup pc = 2 ∨ pcGroup pc = 3 ∨ pcGroup pc = 4 ∨ pcGroup pc = 5 ∨ pcGroup pc = 6 := by cases pc <;> simp [pcGroup]
+  rcases hcover with hg | hg | hg | hg | hg | hg | hg
+  · exact inv_step_0 hg h hi
+  · exact inv_step_1 hg h hi
+  · exact inv_step_2 hg h hi
+  · exact inv_step_3 hg h hi
+  · exact inv_step_4 hg h hi
+  · exact inv_step_5 hg h hi
+  · exact inv_step_6 hg h hi
 
 theorem inv_reach {cap qc s} (h : Reach cap qc true s) : Inv s := by
   induction h with
